@@ -381,12 +381,12 @@ func round(ctx *context, args []Datum) (retNum Datum) {
 
 	num0 := args[0].Number("round()")
 
-	// Trunc() rounds towards zero.
-	var rounded = 0.0
-	if num0 >= 0 {
-		rounded = float64(math.Trunc(0.5 + num0))
-	} else {
-		rounded = -float64(math.Trunc(0.5 - num0))
+	// Closest integer, ties towards positive infinity.  NaN and the
+	// infinities pass through Floor() unchanged.
+	rounded := math.Floor(num0 + 0.5)
+	if rounded == 0 && (num0 < 0 || math.Signbit(num0)) {
+		// Negative zero and numbers in [-0.5, 0) round to negative zero.
+		rounded = math.Copysign(0, -1)
 	}
 
 	return NewNumDatum(rounded)
